@@ -216,6 +216,16 @@ static void cmd_off(Toks& t, std::ostream& os, int cbmode) {
     ClipperOffset co2(ml, at, pc, rs); setup(co2); add_all(co2);
     { PolyTree64 tr; co2.Execute(d, tr); std::ostringstream s; ser_tree(s, tr); T0 = s.str(); }
   }
+  // so / so2: the options supplied through the public setters (on an object constructed with other values; so2: after that
+  // object has executed once with the other values) instead of through the constructor
+  Paths64 S1, S2;
+  {
+    const double ml0 = (ml <= 2.0) ? 5.0 : 1.0, at0 = (at > 0.0) ? 0.0 : 3.0;
+    { ClipperOffset co(ml0, at0, !pc, !rs); setup(co); add_all(co);
+      co.MiterLimit(ml); co.ArcTolerance(at); co.PreserveCollinear(pc); co.ReverseSolution(rs); co.Execute(d, S1); }
+    { ClipperOffset co(ml0, at0, !pc, !rs); setup(co); add_all(co); { Paths64 tmp; co.Execute(d, tmp); }
+      co.MiterLimit(ml); co.ArcTolerance(at); co.PreserveCollinear(pc); co.ReverseSolution(rs); co.Execute(d, S2); }
+  }
   // bx: do the repeated results at least have the same bounding boxes ring by ring (same radii, other vertex counts)?
   auto boxes = [](const Paths64& ps) {
     std::vector<std::array<int64_t, 4>> b;
@@ -229,7 +239,7 @@ static void cmd_off(Toks& t, std::ostream& os, int cbmode) {
     for (size_t i = 0; i < x.size(); ++i) for (int k = 0; k < 4; ++k) if (std::llabs(x[i][k] - y[i][k]) > 1) return false;
     return true; };
   bool bx = near(W2, W) && near(W3, W) && near(W4, W) && near(W5, W);
-  os << "OK e2=" << (W2 == W) << " t=" << (T0 == T1) << " e3=" << (W3 == W) << " d2=" << (W4 == W) << " cl=" << (W5 == W) << " bx=" << bx << " W "; put(os, W);
+  os << "OK e2=" << (W2 == W) << " t=" << (T0 == T1) << " e3=" << (W3 == W) << " d2=" << (W4 == W) << " cl=" << (W5 == W) << " so=" << (S1 == W) << " so2=" << (S2 == W) << " bx=" << bx << " W "; put(os, W);
   os << " NG " << gs.size();
   for (auto& g : gs) {
     Paths64 G; { ClipperOffset co(ml, at, pc, rs); setup(co); co.AddPaths(g.paths, (JoinType)g.jt, (EndType)g.et); co.Execute(d, G); }
